@@ -808,7 +808,9 @@ fn run_declared(out: &mut Out, kind: &str, c: &DecCase) {
     let mut bytes = vec![c.flag];
     bytes.extend_from_slice(&(c.declared as u32).to_be_bytes());
     bytes.extend(std::iter::repeat(7u8).take(c.present));
-    let chunks = cut_chunks(&c.cuts, &bytes);
+    // a large payload travels in chunks of its own (they print as `rep n 7`)
+    let forced: Vec<usize> = if c.present >= 64 { vec![5] } else { vec![] };
+    let chunks = if c.present >= 64 { cut_chunks(&forced, &bytes) } else { cut_chunks(&c.cuts, &bytes) };
     let mut evs: Vec<Ev<Status>> = vec![];
     let mut coq_evs: Vec<String> = vec![];
     // the Pending events in front of the chunk that completes the prefix cost one poll each
@@ -876,9 +878,9 @@ fn run_declared(out: &mut Out, kind: &str, c: &DecCase) {
         Err(p) => (Tr::L(vec![Tr::n(99u8)]), Some(format!("panic: {}", p))),
         Ok((t1, pae1, t2, pae2, done)) => {
             let obs = if done {
-                Tr::L(vec![Tr::L(t1.iter().map(r_tr).collect()), Tr::n(pae1 as u64), Tr::L(t2.iter().map(r_tr).collect()), Tr::n(pae2 as u64)])
+                Tr::L(vec![Tr::L(t1.iter().map(r_tr2).collect()), Tr::n(pae1 as u64), Tr::L(t2.iter().map(r_tr2).collect()), Tr::n(pae2 as u64), Tr::bool(max_alloc >= 65536)])
             } else {
-                let mut v: Vec<Tr> = t1.iter().map(r_tr).collect();
+                let mut v: Vec<Tr> = t1.iter().map(r_tr2).collect();
                 v.push(Tr::L(vec![Tr::n(5u8)]));
                 Tr::L(vec![Tr::L(v)])
             };
@@ -892,13 +894,13 @@ fn run_declared(out: &mut Out, kind: &str, c: &DecCase) {
                 let want: Vec<R<Vec<u8>>> = std::iter::repeat(R::Pending).take(pend_before_prefix).chain([R::Err(11), R::Done]).collect();
                 if t1 != want {
                     o = Some(format!("declared {} > limit {}: polls {:?}, expected {} Pending, Err(OUT_OF_RANGE), None", c.declared, limit, short(&t1.iter().collect::<Vec<_>>()), pend_before_prefix));
-                } else if c.declared >= 65536 && max_alloc as u64 >= c.declared {
+                } else if c.declared >= 65536 && max_alloc as u64 >= 65536 {
                     o = Some(format!("an allocation of {} bytes was made for a refused length of {}", max_alloc, c.declared));
                 }
             } else if legal_flag {
                 // accepted: delivered iff the payload is complete, a truncated one is an error, never OUT_OF_RANGE
                 if c.present as u64 >= c.declared && c.flag == 0 {
-                    if !(vis.len() == 2 && matches!(vis[0], R::Ok(m) if m.len() as u64 == c.declared) && matches!(vis[1], R::Done)) {
+                    if !(vis.len() == 2 && matches!(vis[0], R::Ok(m) if m.len() as u64 == c.declared && m.iter().all(|b| *b == 7)) && matches!(vis[1], R::Done)) {
                         o = Some(format!("declared {} <= limit {} with a complete payload: {:?}", c.declared, limit, short(&vis)));
                     }
                 } else if (c.present as u64) < c.declared && !(vis.len() == 2 && matches!(vis[0], R::Err(13)) && matches!(vis[1], R::Done)) {
@@ -909,7 +911,7 @@ fn run_declared(out: &mut Out, kind: &str, c: &DecCase) {
         }
     };
     let model = format!(
-        "obs_decode {} {} {} [] {} {} {}",
+        "obs_declared {} {} {} {} {} {}",
         if c.request { "Request".to_string() } else { "(Response 200)".to_string() },
         coq_opt(&c.enc, |e| e.num().to_string()),
         coq_opt(&c.max, |m| m.to_string()),
@@ -923,6 +925,98 @@ fn run_declared(out: &mut Out, kind: &str, c: &DecCase) {
     out.hist("c06.declared.direction", if c.request { "request" } else { "response" });
     out.hist("c06.declared.max_alloc", bucket(max_alloc));
     out.push(vcommon::Case { kind: kind.to_string(), input: c.json(), model, impl_obs: obs, oracle, nontrivial: c.declared > limit || c.present > 0 });
+}
+
+// ------------------------------------------------------------------ C06, sending side: a payload above 2^32-1 bytes
+/// an Encoder that "writes" 2^32+1 bytes for the message b"HUGE": it reserves the space and
+/// advances the write cursor without touching the pages, so that only address space is used
+struct HugeEnc;
+const HUGE_LEN: usize = (1usize << 32) + 1;
+impl Encoder for HugeEnc {
+    type Item = Vec<u8>;
+    type Error = Status;
+    fn encode(&mut self, item: Vec<u8>, dst: &mut EncodeBuf<'_>) -> Result<(), Status> {
+        if item == b"HUGE" {
+            dst.reserve(HUGE_LEN);
+            if dst.remaining_mut() < HUGE_LEN {
+                return Err(Status::unavailable("could not reserve 4 GiB of address space"));
+            }
+            unsafe { dst.advance_mut(HUGE_LEN) };
+        } else {
+            dst.put_slice(&item);
+        }
+        Ok(())
+    }
+    fn buffer_settings(&self) -> BufferSettings {
+        BufferSettings::default()
+    }
+}
+/// [prefix messages ..., HUGE, after]: RESOURCE_EXHAUSTED instead of the huge message, every
+/// earlier message delivered ahead of it, nothing after it
+fn can_reserve_huge() -> bool {
+    // probe first: a refused reservation inside BytesMut aborts the process
+    unsafe {
+        let l = std::alloc::Layout::from_size_align(HUGE_LEN + (1 << 20), 8).unwrap();
+        let p = std::alloc::GlobalAlloc::alloc(&std::alloc::System, l);
+        if p.is_null() {
+            return false;
+        }
+        std::alloc::GlobalAlloc::dealloc(&std::alloc::System, p, l);
+        true
+    }
+}
+fn run_4gb(out: &mut Out, server: bool, prefix: &[Vec<u8>], pending_before_huge: bool, cuts: &[usize], pend: &[usize]) {
+    if !can_reserve_huge() {
+        out.hist("c06.4gb.skipped", "4 GiB of address space cannot be reserved here");
+        return;
+    }
+    let c = Case { prost: false, comp: None, override_disable: false, max: None, bs: (8192, 32768), server, dmax: None, src: vec![], cuts: cuts.to_vec(), pend: pend.to_vec() };
+    let mut src: Vec<Option<Vec<u8>>> = prefix.iter().cloned().map(Some).collect();
+    if pending_before_huge {
+        src.push(None);
+    }
+    let coq_src: Vec<Option<Msg>> = src.iter().map(|o| o.clone().map(Msg::Lit)).collect();
+    src.push(Some(b"HUGE".to_vec()));
+    src.push(Some(vec![1, 2, 3]));
+    let input = json!({"server": server, "prefix": prefix.iter().map(|m| hex(m)).collect::<Vec<_>>(), "pending_before_huge": pending_before_huge, "cuts": cuts, "pend": pend});
+    let enc_res = encode_with(HugeEnc, src, &c, None);
+    let (frames, ended) = match enc_res {
+        Ok(x) => x,
+        Err(p) => {
+            out.push(vcommon::Case { kind: "c06.4gb".into(), input, model: "Nd [Nn 0]".into(), impl_obs: Tr::L(vec![Tr::n(99u8)]), oracle: Some(format!("encoder panicked (or the 4 GiB reservation was refused): {}", p)), nontrivial: true });
+            return;
+        }
+    };
+    let script = transport(&c, &frames);
+    let fuel = script.len() + prefix.len() + 3;
+    let (trace, drained, _) = match decode_with(RawDec(BufferSettings::default()), script, &c, fuel) {
+        Ok(x) => x,
+        Err(p) => return push_panic(out, "c06.4gb", &c, &format!("decoder panicked: {}", p)),
+    };
+    let vis: Vec<&R<Vec<u8>>> = trace.iter().filter(|r| !matches!(r, R::Pending)).collect();
+    let mut oracle = None;
+    if !ended || !drained {
+        oracle = Some("the body / the stream did not end".to_string());
+    } else if vis.len() != prefix.len() + 2 || vis.iter().zip(prefix.iter()).any(|(r, m)| !matches!(r, R::Ok(x) if x == m)) {
+        oracle = Some(format!("expected the {} earlier messages, one error, the end; got {:?}", prefix.len(), short(&vis)));
+    } else if !matches!(vis[prefix.len()], R::Err(8)) {
+        oracle = Some(format!("a {} byte payload ended the call with {:?}, expected Err(RESOURCE_EXHAUSTED)", HUGE_LEN, short(&vis[prefix.len()..])));
+    } else if frames.iter().any(|f| matches!(f, Fr::Data(d) if d.len() > 1 << 20)) {
+        oracle = Some("a huge DATA frame was emitted".into());
+    }
+    let model = format!(
+        "obs_4gb {} {} {} {} {} {}",
+        coq_bool(server),
+        coq_list(&coq_src, |o| coq_opt(o, |m| m.coq())),
+        HUGE_LEN,
+        coq_list(cuts, |n| n.to_string()),
+        coq_list(pend, |n| n.to_string()),
+        fuel
+    );
+    let obs = Tr::L(vec![Tr::L(frames.iter().map(frame_tr).collect()), Tr::L(trace.iter().map(r_tr2).collect()), Tr::bool(drained)]);
+    out.hist("c06.4gb.role", if server { "server" } else { "client" });
+    out.hist("c06.4gb.earlier_messages", prefix.len());
+    out.push(vcommon::Case { kind: "c06.4gb".into(), input, model, impl_obs: obs, oracle, nontrivial: true });
 }
 
 // ------------------------------------------------------------------ generators
@@ -1259,7 +1353,7 @@ fn c06_enc_cases(out: &mut Out, wc: &mut WireCache, r: &mut Rng, thorough: bool)
         }
     }
 }
-fn c06_declared_cases(out: &mut Out, r: &mut Rng, thorough: bool) {
+fn c06_declared_cases(out: &mut Out, r: &mut Rng, thorough: bool, first_round: bool) {
     let limits: Vec<Option<usize>> = vec![Some(0), Some(1), Some(5), Some(100), Some(1024), None];
     for max in limits {
         let l = max.unwrap_or(DEFAULT_DEC_LIMIT) as u64;
@@ -1290,6 +1384,19 @@ fn c06_declared_cases(out: &mut Out, r: &mut Rng, thorough: bool) {
                 }
             }
         }
+    }
+    // complete payloads right at the default limit (4 MiB - 1, 4 MiB): accepted and delivered
+    if !first_round {
+    } else if thorough {
+        for d in [DEFAULT_DEC_LIMIT as u64 - 1, DEFAULT_DEC_LIMIT as u64] {
+            for request in [true, false] {
+                let c = DecCase { request, enc: None, flag: 0, max: None, declared: d, present: d as usize, cuts: vec![], pend: vec![1, 0] };
+                run_declared(out, "c06.declared", &c);
+            }
+        }
+    } else {
+        let c = DecCase { request: true, enc: None, flag: 0, max: None, declared: DEFAULT_DEC_LIMIT as u64, present: DEFAULT_DEC_LIMIT, cuts: vec![], pend: vec![] };
+        run_declared(out, "c06.declared", &c);
     }
     // flag 1 under a negotiated encoding: the limit is checked before anything is inflated
     for e in ENCS {
@@ -1372,10 +1479,18 @@ fn main() {
                     run_case(&mut out, &mut wc, "corpus.F-C06a", &Case { server, ..plain.clone() });
                 }
             }
+            if a.thorough {
+                // RESOURCE_EXHAUSTED beyond 4 GiB, for real (address space only)
+                for server in [true, false] {
+                    run_4gb(&mut out, server, &[], false, &[], &[]);
+                    run_4gb(&mut out, server, &[vec![7]], false, &[2], &[0, 1]);
+                    run_4gb(&mut out, server, &[vec![7], vec![], vec![8, 9]], true, &[2, 3, 1], &[1]);
+                }
+            }
             let rounds = if a.thorough { 16 } else { 2 };
-            for _ in 0..rounds {
+            for round in 0..rounds {
                 c06_enc_cases(&mut out, &mut wc, &mut r, a.thorough);
-                c06_declared_cases(&mut out, &mut r, a.thorough);
+                c06_declared_cases(&mut out, &mut r, a.thorough, round == 0);
             }
         }
     }
